@@ -2,3 +2,6 @@ import Verif.Props.C08
 open Verif.Props.C08
 #print axioms number_length_exact
 #print axioms number_value
+#print axioms decimal_length
+#print axioms decimal_value
+#print axioms decimal_grammar
